@@ -329,7 +329,7 @@ def run_layouts(chk, binary, sc, tier, want_valid, want_invalid, chain, nonascii
 
 LEXER_CFG = """SPECIFICATION Spec
 CHECK_DEADLOCK FALSE
-INVARIANTS TokenOK AllTokens ErrorReported NoSpuriousError
+INVARIANTS TokenOK AllTokens ErrorsCounted
 """
 
 
